@@ -130,6 +130,11 @@ func instrumentTree(dir, verifsimSrc string) (*InstrumentReport, error) {
 			if p != dir && (name == "verifsim" || name == "testdata" || name == "vendor" || strings.HasPrefix(name, ".") || strings.HasPrefix(name, "_")) {
 				return filepath.SkipDir
 			}
+			if p != dir {
+				if _, err := os.Stat(filepath.Join(p, "go.mod")); err == nil {
+					return filepath.SkipDir // a nested module is not part of this build
+				}
+			}
 			return nil
 		}
 		if strings.HasSuffix(p, ".go") && !strings.HasSuffix(p, "_test.go") {
@@ -176,14 +181,30 @@ func instrumentTree(dir, verifsimSrc string) (*InstrumentReport, error) {
 			rep.Uncontrolled = append(rep.Uncontrolled, Construct{File: rel, Line: fset.Position(pos).Line, What: what})
 		}
 		var fnStack []string
+		bodyBlocks := map[*ast.BlockStmt]bool{}
 		curFn := func() string {
 			if len(fnStack) == 0 {
 				return ""
 			}
 			return fnStack[len(fnStack)-1]
 		}
-		bracketList := func(list []ast.Stmt) {
-			for _, st := range list {
+		// stmtList handles one statement list: a yield point before every
+		// statement but the first of a function/loop body (the body-entry
+		// yield already sits there), so that any two consecutive statements
+		// can be separated by a task switch; plus no-preempt brackets.
+		bracketList := func(list []ast.Stmt, bodyEntry bool) {
+			for k, st := range list {
+				if !(k == 0 && bodyEntry) {
+					_, isEmpty := st.(*ast.EmptyStmt)
+					_, isCase := st.(*ast.CaseClause)
+					_, isComm := st.(*ast.CommClause)
+					if !isEmpty && !isCase && !isComm {
+						id := next
+						next++
+						rep.Sites = append(rep.Sites, Site{ID: id, File: rel, Line: fset.Position(st.Pos()).Line, Kind: "stmt", Func: curFn()})
+						add(st.Pos(), fmt.Sprintf("verifsim.Yield(%d);", id))
+					}
+				}
 				switch s := st.(type) {
 				case *ast.ExprStmt:
 					call, ok := s.X.(*ast.CallExpr)
@@ -223,11 +244,15 @@ func instrumentTree(dir, verifsimSrc string) (*InstrumentReport, error) {
 				if x.Body == nil {
 					return false
 				}
+				if x.Doc != nil && strings.Contains(x.Doc.Text()+docDirectives(x.Doc), "go:nosplit") {
+					return false // no room for calls on a nosplit stack
+				}
 				name := x.Name.Name
 				if x.Recv != nil && len(x.Recv.List) > 0 {
 					name = recvName(x.Recv.List[0].Type) + "." + name
 				}
 				fnStack = append(fnStack, name)
+				bodyBlocks[x.Body] = true
 				site(x.Body.Lbrace, "func", name)
 				ast.Inspect(x.Body, walk)
 				fnStack = fnStack[:len(fnStack)-1]
@@ -235,20 +260,23 @@ func instrumentTree(dir, verifsimSrc string) (*InstrumentReport, error) {
 			case *ast.FuncLit:
 				name := curFn() + ".func"
 				fnStack = append(fnStack, name)
+				bodyBlocks[x.Body] = true
 				site(x.Body.Lbrace, "funclit", name)
 				ast.Inspect(x.Body, walk)
 				fnStack = fnStack[:len(fnStack)-1]
 				return false
 			case *ast.ForStmt:
+				bodyBlocks[x.Body] = true
 				site(x.Body.Lbrace, "for", curFn())
 			case *ast.RangeStmt:
+				bodyBlocks[x.Body] = true
 				site(x.Body.Lbrace, "range", curFn())
 			case *ast.BlockStmt:
-				bracketList(x.List)
+				bracketList(x.List, bodyBlocks[x])
 			case *ast.CaseClause:
-				bracketList(x.Body)
+				bracketList(x.Body, false)
 			case *ast.CommClause:
-				bracketList(x.Body)
+				bracketList(x.Body, false)
 				unc(x.Pos(), "select/comm clause")
 			case *ast.GoStmt:
 				unc(x.Pos(), "go statement")
@@ -260,11 +288,20 @@ func instrumentTree(dir, verifsimSrc string) (*InstrumentReport, error) {
 				if x.Op == token.ARROW {
 					unc(x.Pos(), "channel receive")
 				}
+			case *ast.MapType:
+				unc(x.Pos(), "map type (iteration order is random)")
+			case *ast.SelectorExpr:
+				if id, ok := x.X.(*ast.Ident); ok && id.Name == "sync" && x.Sel.Name == "Pool" {
+					unc(x.Pos(), "sync.Pool (per-P caches, cleared by GC)")
+				}
+				if id, ok := x.X.(*ast.Ident); ok && id.Name == "rand" {
+					unc(x.Pos(), "rand."+x.Sel.Name)
+				}
 			case *ast.CallExpr:
 				if sel, ok := x.Fun.(*ast.SelectorExpr); ok {
 					if id, ok := sel.X.(*ast.Ident); ok && id.Name == "time" {
 						switch sel.Sel.Name {
-						case "Sleep", "After", "AfterFunc", "NewTimer", "NewTicker", "Tick":
+						case "Sleep", "After", "AfterFunc", "NewTimer", "NewTicker", "Tick", "Now", "Since":
 							unc(x.Pos(), "time."+sel.Sel.Name)
 						}
 					}
@@ -332,6 +369,15 @@ func instrumentTree(dir, verifsimSrc string) (*InstrumentReport, error) {
 }
 
 func isGenerated(f *ast.File) bool { return false }
+
+func docDirectives(cg *ast.CommentGroup) string {
+	var sb strings.Builder
+	for _, c := range cg.List {
+		sb.WriteString(c.Text)
+		sb.WriteByte('\n')
+	}
+	return sb.String()
+}
 
 func recvName(e ast.Expr) string {
 	switch x := e.(type) {
